@@ -329,6 +329,11 @@ func genC14API(rt *rapid.T) c14APICase {
 		}
 		if rapid.Bool().Draw(rt, "hasargs") {
 			e.Args = rapid.SliceOfN(str, 1, 5).Draw(rt, "args")
+			if rapid.IntRange(0, 5).Draw(rt, "longarg") == 3 {
+				// a long command line (sh -c '<script>')
+				n := rapid.SampledFrom([]int{255, 256, 257, 300, 1024, 4000}).Draw(rt, "arglen")
+				e.Args = append(e.Args, strings.Repeat("s", n))
+			}
 		}
 		c.Events = append(c.Events, e)
 	}
